@@ -453,7 +453,7 @@ def nd_ops(axes):
 
         return f
 
-    for p in (1, 2):
+    for p in (1, 2, 3):
         for ax in range(nd):
             ops.append((f'diff[axes=({ax},),p={p}]', diff((ax,), p)))
     for axt in [t for r in (2, 3) for t in itertools.permutations(range(nd), r)][:8]:
@@ -650,6 +650,13 @@ def build_space(tier):
     for b in bases:
         cases.append({'kind': 'nd', 'axes': [[b, 4, _iv(ivs[b][0])], [b, 4, _iv(ivs[b][1])]]})
         cases.append({'kind': 'nd', 'axes': [[b, 3, _iv(ivs[b][1])], [b, 3, _iv(ivs[b][0])], [b, 3, _iv(ivs[b][1])]]})
+    # intervals at the edge of the range: very long and very short (operator entries far below / above 1; entries are
+    # compared relative to their own size)
+    for b in ('cheb', 'ultra'):
+        for long_iv in ((0.0, 1.0e8), (-1.0e-6, 1.0e-6)):
+            cases.append({'kind': 'nd', 'axes': [[b, 6, list(long_iv)]]})
+            cases.append({'kind': 'nd', 'axes': [[b, 5, list(long_iv)], ['fft', 4, REF]]})
+            cases.append({'kind': 'nd', 'axes': [['fft', 4, [2.0, 2.5]], [b, 5, list(long_iv)]]})
     return cases
 
 
